@@ -1,6 +1,6 @@
 (* C04 — Timeouts are exact: never pending after the deadline, never timed out before it.
    Only statements, closed by lemmas of Proofs/, and their assumptions. *)
-From RV Require Import Mon MonC04 StoreLocks StorePromises Discipline SysInv PC04.
+From RV Require Import Mon MonC04 StoreLocks StorePromises Discipline SysInv PC04 PC04e.
 
 (* PROVED for EVERY schedule of well-formed requests (every placement of request and sweep ticks relative to the
    timeout - before, exactly at, after -, every race between the lazy time-out of read/create/complete/search
@@ -15,6 +15,16 @@ From RV Require Import Mon MonC04 StoreLocks StorePromises Discipline SysInv PC0
 Theorem C04_holds_partial : forall cfg sch, sch_wf sch -> C04_mon_partial (events cfg sch) = [].
 Proof. exact C04_trace_partial. Qed.
 Print Assumptions C04_holds_partial.
+
+(* clause 404 for EVERY schedule (Proofs/PC04e.v): whatever completion a coroutine hands to the store at tick t is the
+   time-out of a promise whose deadline has been reached (completion time = timeout <= t, the time-out state, empty
+   value, no key) or installs a caller's state decided at t, strictly before the deadline (completion time = t <
+   timeout): "a completion request handled at or after the timeout never installs the caller's state or value",
+   whatever completion time it stamps.  The emission discipline (Discipline.up_ok) states exactly this, at the tick of
+   emission, for every program point of every coroutine. *)
+Theorem C04_handled_before_the_deadline : forall cfg sch, sch_wf sch -> C04e_mon (events cfg sch) = [].
+Proof. exact C04e_trace. Qed.
+Print Assumptions C04_handled_before_the_deadline.
 
 (* store level: one command under the emission discipline keeps every completed row in shape *)
 Theorem C04_store_shape : forall now t d c h d' r,
